@@ -115,7 +115,7 @@ pub fn duration_text(data: &[u8]) -> Result<(), String> {
             }
             1 => verdict(c11::offset_oracle(&c11::Offset { neg: u.ratio(1, 2)?, h: u.int_in_range(0..=99)?, m: u.int_in_range(0..=59)?, s: if u.ratio(1, 2)? { Some(u.int_in_range(0..=59)?) } else { None }, colon: u.ratio(1, 2)? })),
             _ => {
-                let max: i64 = 10_000 * 366 * 86_400;
+                let max: i64 = 32_768 * 3_155_760_000; // the whole representable range
                 let secs: i64 = u.int_in_range(-max..=max)?;
                 let ns: i64 = u.int_in_range(0..=999_999_999)?;
                 verdict(c11::dec_oracle(&c11::Dec { c: secs as i128 * NS_S + ns as i128 }))
